@@ -313,11 +313,17 @@ func init() {
 		if x.Thorough() {
 			maxPl = 20000
 		}
-		if x.Thorough() {
-			// the largest extension block the 16-bit word count can describe, and one word more
-			// (outside the domain: the count wraps; correspondence only)
-			for _, words := range []int{65535, 65534, 65536, 16384} {
-				for _, kind := range []int{profLegacy, profTwo, profOne} {
+		{
+			// quick tier: blocks of 2^14 words and more (>= 65536 bytes: the byte length no longer
+			// fits 16 bits — seeds C01-r2-1 / C03-r2-1), legacy and two-byte forms (cheap to walk);
+			// thorough tier: the largest block the 16-bit word count can describe, and one word more
+			// (outside the domain: the count wraps; correspondence only), all three forms
+			wordsList, kindList := []int{16384, 16385, 32768}, []int{profLegacy, profTwo}
+			if x.Thorough() {
+				wordsList, kindList = []int{65535, 65534, 65536, 16384, 16385, 32768}, []int{profLegacy, profTwo, profOne}
+			}
+			for _, words := range wordsList {
+				for _, kind := range kindList {
 					words, kind := words, kind
 					x.Case(func(c *Case) {
 						p := &PacketIn{}
